@@ -14,7 +14,6 @@ import (
 	"os"
 	"path"
 	"strings"
-	"time"
 )
 
 // handleCreate handles NFSPROC3_CREATE - create a file
@@ -97,7 +96,7 @@ func (h *NFSProcedureHandler) handleCreate(body io.Reader, reply *RPCReply, auth
 		switch {
 		case createHow == 1 || !info.Mode().IsRegular():
 			status = NFSERR_EXIST
-		case isExclusive && !h.server.handler.sameExclusiveCreate(lookupPath, verf, info):
+		case isExclusive && !h.server.handler.sameExclusiveCreate(lookupPath, verf):
 			status = NFSERR_EXIST
 		case !isExclusive && sattr.SetSize:
 			// UNCHECKED over an existing file: the only attribute applied is an explicit size
@@ -224,43 +223,30 @@ func (h *NFSProcedureHandler) handleCreate(body io.Reader, reply *RPCReply, auth
 	return reply, nil
 }
 
-// exclusiveCreate remembers which verifier created a file, and the file's
-// modification time right after, so that a later EXCLUSIVE CREATE of the same
-// name can be told apart from a retransmission of this one.
-type exclusiveCreate struct {
-	verf  [8]byte
-	mtime time.Time
-}
-
 // maxExclusiveCreates bounds the table of remembered EXCLUSIVE CREATE verifiers
 const maxExclusiveCreates = 1024
 
+// rememberExclusiveCreate records which verifier created the file at p, so that
+// a later EXCLUSIVE CREATE of the same name can be told apart from a
+// retransmission of this one.
 func (s *AbsfsNFS) rememberExclusiveCreate(p string, verf [8]byte) {
-	info, err := s.fs.Lstat(p)
-	if err != nil {
-		return
-	}
 	s.exclusiveMu.Lock()
 	defer s.exclusiveMu.Unlock()
 	if s.exclusiveCreates == nil || len(s.exclusiveCreates) >= maxExclusiveCreates {
-		s.exclusiveCreates = make(map[string]exclusiveCreate)
+		s.exclusiveCreates = make(map[string][8]byte)
 	}
-	s.exclusiveCreates[p] = exclusiveCreate{verf: verf, mtime: info.ModTime()}
+	s.exclusiveCreates[p] = verf
 }
 
 // sameExclusiveCreate reports whether an EXCLUSIVE CREATE with this verifier over
-// the existing file at p is to be answered as a retransmission. A file this
-// server remembers creating exclusively, and that was not modified since, only
-// accepts the verifier that created it; any other file keeps the historical
-// behaviour of being accepted.
-func (s *AbsfsNFS) sameExclusiveCreate(p string, verf [8]byte, info os.FileInfo) bool {
+// the existing file at p is to be answered as a retransmission. A path this
+// server remembers creating exclusively only accepts the verifier that created
+// it; any other file keeps the historical behaviour of being accepted.
+func (s *AbsfsNFS) sameExclusiveCreate(p string, verf [8]byte) bool {
 	s.exclusiveMu.Lock()
 	defer s.exclusiveMu.Unlock()
 	made, ok := s.exclusiveCreates[p]
-	if !ok || !made.mtime.Equal(info.ModTime()) {
-		return true
-	}
-	return made.verf == verf
+	return !ok || made == verf
 }
 
 // handleMkdir handles NFSPROC3_MKDIR - create a directory
